@@ -306,6 +306,27 @@ class Session(object):
                 self.q(q)
         return r
 
+    def w_deleteu(self):
+        """delete_webentity(…, check_for_corruption=False): prefixes of one or two webentities, now and then one that is
+        not in the index (the request then fails half-way) or one given twice"""
+        w, ps = self.pick_we()
+        ps = list(ps)
+        x = self.r.random()
+        if x < 0.3:
+            ps += self.pick_we()[1][:1]
+        if x > 0.75:
+            ps.insert(self.r.randint(0, len(ps)), self.any_lru())
+        if ps and self.r.random() < 0.15:
+            ps.append(ps[0])
+        return self.do("deleteu " + brack([hx(p) for p in ps]))
+
+    def w_addruleram(self):
+        st = stems_of(self.any_lru())
+        a = b"".join(st[: self.r.randint(1, len(st))])
+        res = self.do("addruleram %s %s" % (hx(a), self.r.choice(RULE_NAMES[1:])))
+        self.q("potential " + hx(a + b"p:zz|"))
+        return res
+
     def w_addprefix(self):
         w, _ = self.pick_we()
         p = self.any_lru(); self.note(p)
@@ -516,7 +537,7 @@ class Session(object):
         self.do("hash")
 
     WRITES = ["addpage", "addpages", "addlinks", "batch", "create", "delete", "addprefix", "rmprefix", "moveprefix",
-              "addrule", "rmrule", "reopen", "clear", "cobatch"]
+              "addrule", "rmrule", "reopen", "clear", "cobatch", "deleteu", "addruleram"]
     READS = ["resolution", "pages", "paginate", "paginatelinks", "mostlinked", "hierarchy", "welinks", "pagelinks",
              "network", "global", "linksiter", "locate", "metrics", "helpers", "hierarchy_all"]
 
@@ -536,4 +557,5 @@ class Session(object):
 
 
 DEFAULT_W = {"addpage": 6, "addpages": 2, "addlinks": 4, "batch": 3, "create": 3, "delete": 1.2, "addprefix": 1.5,
-             "rmprefix": 1, "moveprefix": 0.8, "addrule": 1.5, "rmrule": 0.5, "reopen": 0.8, "clear": 0.25, "cobatch": 0.5}
+             "rmprefix": 1, "moveprefix": 0.8, "addrule": 1.5, "rmrule": 0.5, "reopen": 0.8, "clear": 0.25, "cobatch": 0.5,
+             "deleteu": 0.5, "addruleram": 0.4}
